@@ -20,6 +20,7 @@ EXTENDS Type2, Json
 
 CONSTANTS MaxBlocks,      \* forms family: block sequences up to this length (profile 1, cff)
           MaxBlocksAll,   \* ... up to this length for every profile and kind
+          ExtraKinds,     \* block kinds of the sequences one block longer than the two bounds above
           BigCounts       \* subroutine counts for the bias family
 
 VARIABLES ph, cs, m
@@ -189,10 +190,14 @@ RET(kind) == IF IsCff2(kind) THEN <<>> ELSE <<O("return")>>
 NoVar == [regions |-> <<>>, tuple |-> <<>>, dvs |-> 0]
 \* feat: the feature class a finding on this case is filed under (part of the violation key)
 FeatOf(fam, tag, ls, gs) ==
-  IF fam \in {"seac", "misc", "blend"} THEN tag
+  IF fam = "blend" THEN tag
+  ELSE IF fam = "misc" THEN (IF tag \in {"space", "hints-only"} THEN "empty-outline"
+                            ELSE IF tag \in {"cff2-hvcurveto-53-operands", "cff2-vhcurveto-53-operands"}
+                                 THEN "cff2-more-than-48-operands" ELSE tag)
+  ELSE IF fam = "seac" THEN tag.feat
   ELSE IF ls # <<>> THEN "lsubr" ELSE IF gs # <<>> THEN "gsubr" ELSE "nosubr"
 Case(fam, tag, kind, prog, ls, gs, nL, nG, comps, charset, var, path, small) ==
-  [fam |-> fam, tag |-> tag, feat |-> FeatOf(fam, tag, ls, gs), kind |-> kind, prog |-> prog, lsubrs |-> ls, gsubrs |-> gs,
+  [fam |-> fam, tag |-> IF fam = "seac" THEN tag.text ELSE tag, feat |-> FeatOf(fam, tag, ls, gs), kind |-> kind, prog |-> prog, lsubrs |-> ls, gsubrs |-> gs,
    nL |-> nL, nG |-> nG, comps |-> comps, charset |-> charset,
    regions |-> var.regions, tuple |-> var.tuple, dvs |-> var.dvs, path |-> path, small |-> small]
 
@@ -350,10 +355,17 @@ SeacCases(codes, charset, ow, cw, chint) ==
       path == bpath \o <<[mv |-> <<adx + apath[1].mv[1] - (bpath[1].mv[1] + bpath[1].segs[1].d[1]),
                                     ady + apath[1].mv[2] - (bpath[1].mv[2] + bpath[1].segs[2].d[2])>>,
                           segs |-> apath[1].segs]>>
-      tag == (IF charset = "iso" /\ (codes[1] > 228 \/ codes[2] > 228) THEN "isoadobe-code-above-228" ELSE "codes-plain")
-             \o (IF ow THEN "+width" ELSE "+nowidth") \o (IF cw THEN "+compwidth" ELSE "")
-             \o (IF chint = 1 THEN "+comphints" ELSE IF chint = 5 THEN "+comphints10" ELSE "") IN
-  { Case("seac", tag, "cff", outer, <<>>, <<>>, 0, 0,
+      above == charset = "iso" /\ (codes[1] > 228 \/ codes[2] > 228)
+      text == (IF above THEN "isoadobe-code-above-228" ELSE "codes-plain")
+              \o (IF ow THEN "+width" ELSE "+nowidth") \o (IF cw THEN "+compwidth" ELSE "")
+              \o (IF chint = 1 THEN "+comphints" ELSE IF chint = 5 THEN "+comphints10" ELSE "")
+      \* the one feature of the case a finding is filed under (first that applies)
+      feat == IF above THEN "stdenc-code-above-228"
+              ELSE IF ~ow THEN "four-operands-no-width"
+              ELSE IF chint = 5 THEN "component-own-stem-count"
+              ELSE IF cw /\ chint = 0 THEN "component-own-width"
+              ELSE "plain" IN
+  { Case("seac", [text |-> text, feat |-> feat], "cff", outer, <<>>, <<>>, 0, 0,
          <<[i |-> codes[1], t |-> comp(bpath, 31, 0)], [i |-> codes[2], t |-> comp(apath, 32, 11)]>>,
          charset, NoVar, path, TRUE) }
 
@@ -415,6 +427,7 @@ RECURSIVE SeqsUpTo(_, _)
 SeqsUpTo(S, n) == IF n = 0 THEN {<<>>}
                   ELSE LET prev == SeqsUpTo(S, n - 1) IN
                        prev \cup {Append(s, x) : s \in {q \in prev : Len(q) = n - 1}, x \in S}
+SeqsOfLen(S, n) == IF S = {} THEN {} ELSE {q \in SeqsUpTo(S, n) : Len(q) = n}
 BlockSeqs(n) == SeqsUpTo(BlockKinds, n) \ {<<>>}
 Kinds == {"cff", "cid", "cff2", "cff2fd"}
 
@@ -422,6 +435,9 @@ Selections ==
        {[fam |-> "forms", kind |-> "cff", p |-> 1, ks |-> ks] : ks \in BlockSeqs(MaxBlocks)}
   \cup {[fam |-> "forms", kind |-> k, p |-> p, ks |-> ks] :
            k \in {"cff", "cff2"}, p \in 1 .. 4, ks \in BlockSeqs(MaxBlocksAll)}
+  \cup {[fam |-> "forms", kind |-> "cff", p |-> 1, ks |-> ks] : ks \in SeqsOfLen(ExtraKinds, MaxBlocks + 1)}
+  \cup {[fam |-> "forms", kind |-> k, p |-> p, ks |-> ks] :
+           k \in {"cff", "cff2"}, p \in 1 .. 4, ks \in SeqsOfLen(ExtraKinds, MaxBlocksAll + 1)}
   \cup {[fam |-> "wrap", kind |-> k, pn |-> pn, w |-> w, h |-> h, fk |-> fk] :
            k \in Kinds, pn \in {"a", "h", "v"}, w \in BOOLEAN, h \in HintKinds, fk \in FactorKinds}
   \cup {[fam |-> "bias", kind |-> k, cnt |-> c, g |-> g] :
@@ -506,6 +522,10 @@ EmitCase ==
                                         width |-> m.width # <<>>],
                              exp |-> Outcome(m)])>>)
 
+NoKinds     == {}
+\* the blocks whose runs grow new argument patterns with length: alternating h/v lines and curves, the
+\* odd final argument of hvcurveto / vhcurveto, line/curve splits
+LongKinds   == {"Lh", "Lv", "Lg", "Chv", "Cvh", "Chx", "Cvx"}
 BigQuick    == {33899, 33900}
 BigThorough == {33899, 33900, 33901, 65535}
 =============================================================================
